@@ -156,8 +156,8 @@ class LinearOperator(Operator[torch.Tensor, tuple[torch.Tensor]]):
                     should be different from the zero-vector.'
                 )
 
-        # set initial value
-        vector = initial_value
+        # set initial value (normalized, such that the estimate does not depend on the length of the initial value)
+        vector = initial_value / norm_initial_value
 
         # creaty dummy operator norm value that cannot be correct because by definition, the
         # operator norm is a strictly positive number. This ensures that the first time the
